@@ -299,4 +299,4 @@ def run_async_pending(run, P):
                 run.violation('R-RESP', f['name'], loc, 'async-pending-and-due-not-separated',
                               'the tests of async->delay starting here send a pending entry (delay 0 = until triggered, or delay in the future) and a due entry (delay in the '
                               'past) to the same successor: an entry that waits for coap_async_trigger() is treated like one whose time has come', [])
-    run.require(n >= (2 if run.cfg == 'base' else 0) or run.fixture_mode, 'R-RESP(pending async): fewer than 2 decisions on async->delay found')
+    run.require_count(n >= (2 if run.cfg == 'base' else 0) or run.fixture_mode, 'R-RESP(pending async): fewer than 2 decisions on async->delay found')
